@@ -122,9 +122,11 @@ class Field:
     pass
 
 
-def build_field(cont, size, n, ns, spec, scale, cplx, seed, nan, salt, with_weights, chunk=False, ratio=1.0):
+def build_field(cont, size, n, ns, spec, scale, cplx, seed, nan, salt, with_weights, chunk=False, ratio=1.0, wkind="float", forder="asc"):
     """`ratio` > 1 makes a multi-variable field ILL-SCALED: variable number i (Dataset variable / list item, in order)
-    is divided by ratio**i, like temperature in K next to specific humidity in kg/kg."""
+    is divided by ratio**i, like temperature in K next to specific humidity in kg/kg.
+    `wkind`: user weights as float64 numbers, or integer-valued in integer storage (e.g. counts / band weights 1, 2, 3).
+    `forder`: feature coordinates stored ascending, or in an unsorted element order (reconstructions may come back sorted)."""
     import xarray as xr
 
     f = Field()
@@ -152,9 +154,15 @@ def build_field(cont, size, n, ns, spec, scale, cplx, seed, nan, salt, with_weig
             fcoords = {"lat": np.asarray(LATS[grid[0]])}
             if len(grid) == 2:
                 fcoords["lon"] = np.arange(grid[1]) * 30.0
+            if forder == "unsorted":
+                fcoords["lat"] = np.roll(fcoords["lat"], 1)  # e.g. [75, -60, 10]
+                if len(grid) == 2:
+                    fcoords["lon"] = fcoords["lon"][::-1].copy()
             da = xr.DataArray(M.reshape(shp + tuple(grid)), dims=f.sdims + fdims, coords={**f.scoords, **fcoords}, name=name)
             rng = np.random.default_rng([int(seed), 77, salt, pi])
             w = xr.DataArray(0.5 + 2.0 * rng.random(tuple(grid)), dims=fdims, coords=fcoords)
+            if wkind != "float":
+                w = xr.DataArray(rng.integers(1, 4, size=tuple(grid)).astype(wkind), dims=fdims, coords=fcoords)
             if chunk:
                 da = da.chunk({"time": 2})  # sample-wise chunks only: dask's svd refuses arrays chunked along both axes (DESIGN 3.4)
             das[name], ws[name] = da, w
@@ -298,6 +306,13 @@ def cases(tier, seed):
         for (cont, ns, nan) in struct:
             for fl in ((FLAGS4 if quick else FLAGS16) if main else (FLAGS2 if quick else FLAGS4)):
                 _single(out, model, cplx, pad, cont, ns, nan, fl, sv=sv)
+        # integer-typed user weights, and feature coordinates stored in an unsorted element order
+        for cont in (["DA", "DS"] if quick else conts):
+            for ns in (1, 2):
+                for (wk, fo) in (("int64", "asc"), ("float", "unsorted")) if quick else (("int64", "asc"), ("int32", "unsorted"), ("float", "unsorted")):
+                    for fl in (FLAGS2[:1] if quick else [FLAGS4[1], (True, False, False, True), (False, False, False, True)]):
+                        _single(out, model, cplx, pad, cont, ns, "none", fl, sv=sv)
+                        out[-1].update(wkind=wk, forder=fo)
         # truncated models: clauses (ii) and (iii) only
         for cont in (["DA", "DS"] if quick else conts):
             for ns in ((2,) if quick else (1, 2)):
@@ -347,6 +362,15 @@ def cases(tier, seed):
                 for cont in (["DA"] if quick else ["DA", "DS"]):
                     for (ns, nan) in ([(1, "none"), (2, "sample")] if quick else NSNAN4):
                         _cross(out, model, a, pca, cf, cont, ns, nan, sv=sv)
+    # integer-typed user weights, feature coordinates stored unsorted (cross-set)
+    for (model, alpha) in STRUCT_MODELS[: 2 if quick else None]:
+        a = _alpha_of(model, alpha)
+        for pca in (False, True):
+            for cont in (["DA", "DS"] if quick else conts):
+                for ns in ((1,) if quick else (1, 2)):
+                    for (wk, fo) in (("int64", "asc"), ("float", "unsorted")) if quick else (("int64", "asc"), ("int32", "unsorted"), ("float", "unsorted")):
+                        _cross(out, model, a, pca, CFLAGS2[1], cont, ns, "none", sv=sv)
+                        out[-1].update(wkind=wk, forder=fo)
     # one field larger than the number of modes: only the other one is restored
     for sizes in ((6, 4), (4, 6)):
         for (model, alpha) in (("CPCCA", (0.25, 0.5)), ("MCA", None), ("ComplexCPCCA", (0.5, 0.0))):
@@ -718,7 +742,7 @@ def _prov_feat(case):
 
 def run_single(case, seed):
     chunk = case["prov"] == "deferred"
-    f = build_field(case["cont"], "S", case["n"], case["ns"], case["spec"], case["scale"], case["cplx"], seed, case["nan"], 1, case["weights"], chunk=chunk, ratio=case.get("ratio", 1.0))
+    f = build_field(case["cont"], "S", case["n"], case["ns"], case["spec"], case["scale"], case["cplx"], seed, case["nan"], 1, case["weights"], chunk=chunk, ratio=case.get("ratio", 1.0), wkind=case.get("wkind", "float"), forder=case.get("forder", "asc"))
     k_all = min(f.n_valid, f.P_valid)
     full = case["n_modes"] == "all"
     k = k_all if full else int(case["n_modes"])
@@ -927,8 +951,8 @@ def run_cross(case, seed):
     chunk = case["prov"] == "deferred"
     sx, sy = case["sizes"]
     wts = case["weights"]
-    fx = build_field(case["cont"], sx, case["n"], case["ns"], case["spec"], case["scale"], case["cplx"], seed, case["nan"], 2, wts[0], chunk=chunk, ratio=case.get("ratio", 1.0))
-    fy = build_field(case["cont"], sy, case["n"], case["ns"], case["spec"], case["scale"], case["cplx"], seed, case["nan"], 3, wts[1], chunk=chunk, ratio=case.get("ratio", 1.0))
+    fx = build_field(case["cont"], sx, case["n"], case["ns"], case["spec"], case["scale"], case["cplx"], seed, case["nan"], 2, wts[0], chunk=chunk, ratio=case.get("ratio", 1.0), wkind=case.get("wkind", "float"), forder=case.get("forder", "asc"))
+    fy = build_field(case["cont"], sy, case["n"], case["ns"], case["spec"], case["scale"], case["cplx"], seed, case["nan"], 3, wts[1], chunk=chunk, ratio=case.get("ratio", 1.0), wkind=case.get("wkind", "float"), forder=case.get("forder", "asc"))
     k_all = min(fx.P_valid, fy.P_valid)
     full = case["n_modes"] == "all"
     k = k_all if full else int(case["n_modes"])
